@@ -8,7 +8,8 @@ from checks.e2e import concrete, judge, make  # noqa: F401
 
 META = {
     "level": "model_checking",
-    "claim": "For each listed template document (6 generated templates covering unaligned integers after dynamic-length binaries, calibrated and raw "
+    "claim": "For each listed template document (the deterministic mixed-feature family MIXk - every combination step of 17 field kinds with three "
+             "criteria forms and two-way inheritance - and 6 hand-written templates covering unaligned integers after dynamic-length binaries, calibrated and raw "
              "length references with linear adjustment, strings with leading size / terminator / fixed size, enumerations, booleans, scaled times, "
              "IEEE 16/32/64 and MIL-1750A in both byte orders, default + context calibrators, Comparison / ComparisonList / nested "
              "BooleanExpression criteria on header and user data including value 0, nested containers reused twice, abstract dead ends, ambiguity; "
@@ -18,8 +19,8 @@ META = {
              "value class per item, same cursor; undefined packets skipped or reported with their partial data; nothing else.",
     "trusted": "z3; BV proxies and the struct.unpack / bytes.decode function symbols; Spec-XTCE (my reading of XTCE and of the property, DESIGN.md "
                "Appendix A); every path cross-validated against the unpatched generator on a concrete witness",
-    "bounds": {"quick": {"templates": ["T1", "T3", "T4", "T6", "JPSS"], "packets per stream": "1 (2 for T4)", "lengths": "clean, and clean-1 for T1"},
-               "thorough": {"templates": ["T1", "T2", "T3", "T4", "T5", "T6", "JPSS", "JPSS_CONTRIVED"], "packets per stream": "1-3",
+    "bounds": {"quick": {"templates": ["T1", "T3", "T4", "T6", "JPSS", "MIX0..MIX16 (mixed-feature family: 17 field kinds x criteria forms)"], "packets per stream": "1 (2 for T4)", "lengths": "clean, and clean-1 for T1"},
+               "thorough": {"templates": ["T1", "T2", "T3", "T4", "T5", "T6", "JPSS", "JPSS_CONTRIVED", "MIX0..MIX101"], "packets per stream": "1-3",
                             "lengths": "clean-1, clean, clean+1"}},
     "stubs": ["struct.unpack and bytes.decode uninterpreted", "warnings.warn recorded", "enumeration dict lookup by a symbolic key = first equal key"],
     "outside_claim": ["documents outside the listed template family", "packets longer than the bound", "float rounding; NaN/inf in comparisons",
@@ -45,7 +46,7 @@ def jobs(tier):
             J("T4-9-10", "T4", [9, 10], flagsets=[0, 3]),
             J("T6-12", "T6", [12], flagsets=[1, 2]),
             J("JPSS-71", "JPSS", [71], flagsets=[0, 3]),
-        ]
+        ] + [J(f"MIX{k}-12", f"MIX{k}", [12], flagsets=[1, 2], split=4) for k in range(17)]
     out = []
     for t, clean in (("T1", 19), ("T2", 18), ("T3", 16), ("T5", 9), ("T6", 12)):
         for d in (-1, 0, 1):
@@ -53,6 +54,7 @@ def jobs(tier):
     out += [J("T4-9", "T4", [9]), J("T4-10", "T4", [10]), J("T4-9-10", "T4", [9, 10]), J("T4-10-9-10", "T4", [10, 9, 10], flagsets=[0, 3]),
             J("T6-12-12", "T6", [12, 12], flagsets=[1, 2]), J("JPSS-71", "JPSS", [71]), J("JPSS-71-71", "JPSS", [71, 71], flagsets=[3]),
             J("JPSSC-71", "JPSS_CONTRIVED", [71])]
+    out += [J(f"MIX{k}-{n}", f"MIX{k}", [n], split=4) for k in range(102) for n in ((12,) if k % 3 else (11, 12, 13))]
     return out
 
 
